@@ -588,9 +588,26 @@ def install(reg):
             p.ghost[key] = True
             p.assume(z3.Implies(it >= z3.Length(X), t == z3.Empty(BYTES)))
             p.assume(z3.Implies(z3.And(it >= 0, it < z3.Length(X)),
-                                t == z3.Concat(z3.Select(fs.data, PV.sval(X[it])), f(X, fs.data, it + 1))))
+                                t == z3.Concat(data_at_term(p, X, it), f(X, fs.data, it + 1))))
         return VBytes(t)
     SF["rest"] = s_rest
+
+    def data_at_term(p, X, it):
+        """contents of the file named by the it-th entry of a path list, as an uninterpreted term with its defining equation
+        (keeps seq.nth out of the word equations)"""
+        fs = fs_of(p)
+        f = p.engine.uf("data_at", PVSEQ, DATA_SORT, I, BYTES)
+        t = f(X, fs.data, it)
+        key = ("data_at", X.get_id(), fs.data.get_id(), z3.simplify(it).sexpr())
+        if key not in p.ghost:
+            p.ghost[key] = True
+            p.assume(z3.Implies(z3.And(it >= 0, it < z3.Length(X)), t == z3.Select(fs.data, PV.sval(X[it]))))
+        return t
+
+    def s_data_at(p, paths, i):
+        h = p.deref(paths)
+        return VBytes(data_at_term(p, p.list_seq(h), p.as_int(i)))
+    SF["data_at"] = s_data_at
 
     def gap_term(p, n, pl):
         """gap(n, pl) = (-n) mod pl for pl > 0, as an uninterpreted function with the ground facts the align proofs need:
@@ -624,7 +641,7 @@ def install(reg):
         key = ("rest_aligned", X.get_id(), fs.data.get_id(), z3.simplify(it).sexpr(), z3.simplify(n).sexpr())
         if key not in p.ghost:
             p.ghost[key] = True
-            d = z3.Select(fs.data, PV.sval(X[it]))
+            d = data_at_term(p, X, it)
             p.assume(z3.Implies(it >= z3.Length(X), t == z3.Empty(BYTES)))
             p.assume(z3.Implies(z3.And(it >= 0, it < z3.Length(X)),
                                 t == z3.Concat(d, p.engine.zeros(p, gap_term(p, z3.Length(d), n)), f(X, fs.data, it + 1, n))))
@@ -667,7 +684,7 @@ def install(reg):
             p.ghost[key] = True
             p.assume(f(X, fs.data, z3.IntVal(0), n) == 0)
             for j in (it, it - 1):
-                d = z3.Length(z3.Select(fs.data, PV.sval(X[j])))
+                d = z3.Length(data_at_term(p, X, j))
                 p.assume(z3.Implies(z3.And(j >= 0, j < z3.Length(X)),
                                     f(X, fs.data, j + 1, n) == f(X, fs.data, j, n) + d + gap_term(p, d, n)))
         return VInt(t)
